@@ -250,6 +250,10 @@ class SeqV(V):
             return ("family", self.lo, self.hi, ep._subst_key(self.elem.key(), {self.var: ep.sym("@v")}))
         if self.kind == "seqmap":
             return ("seqmap", self.seq.key(), ep._subst_key(self.elem.key(), {self.var: ep.sym("@v")}))
+        if self.kind == "guarded":
+            return ("guarded", tuple((c.key(), v) for c, v in self.conds), self.part.key())
+        if self.kind == "nested":
+            return ("nested", self.var, tuple(p.key() for p in self.parts))
         return ("concat",) + tuple(p.key() for p in self.parts)
 
     def __repr__(self):
@@ -259,7 +263,9 @@ class SeqV(V):
             return "[%r for %s in %r..%r)" % (self.elem, self.var, self.lo, self.hi)
         if self.kind == "seqmap":
             return "[%r for %s over %r]" % (self.elem, self.var, self.seq)
-        return "concat%r" % (self.parts,)
+        if self.kind == "guarded":
+            return "guarded[%r if %r]" % (self.part, self.conds)
+        return "%s%r" % (self.kind, self.parts,)
 
 
 class SetV(V):
